@@ -6,7 +6,7 @@ chk = Check("C34")
 import random
 chk.rng = random.Random(int(sys.argv[1]) if len(sys.argv) > 1 else 0)
 n = int(sys.argv[2]) if len(sys.argv) > 2 else 300
-cases = c34.build_cases(chk, n, 2)
+cases = c34.build_cases(chk, n, 2, float(sys.argv[3]) if len(sys.argv)>3 else 0.0)
 print("cases", len(cases))
 bad = []
 for c in cases:
